@@ -12,6 +12,7 @@ package vrt
 // H is a 128-bit fingerprint.
 type H struct{ A, B uint64 }
 
+//go:norace
 func mix(x, y H, c uint64) H {
 	a := (x.A ^ (y.A + 0x9e3779b97f4a7c15 + c)) * 0xff51afd7ed558ccd
 	a ^= a >> 32
@@ -29,6 +30,8 @@ type Pruner interface {
 }
 
 // event chains an operation of the running thread on object hash o.
+//
+//go:norace
 func (r *Runtime) event(o *H, code uint64) {
 	t := r.cur
 	nh := mix(t.h, *o, code)
@@ -37,11 +40,15 @@ func (r *Runtime) event(o *H, code uint64) {
 }
 
 // absorb makes thread w (woken or completed by the running thread's operation) depend on hash h.
+//
+//go:norace
 func absorb(w *Thread, h H) { w.h = mix(w.h, h, 0x77) }
 
 // Event is a happens-before event on a harness-level shared object: harness code that shares plain
 // variables between threads calls it (with a per-object H) around each access so that state caching
 // distinguishes the access orders.
+//
+//go:norace
 func Event(o *H) {
 	r := rt
 	if r == nil || r.aborting {
@@ -50,19 +57,19 @@ func Event(o *H) {
 	r.event(o, 0x99)
 }
 
+//go:norace
 func (r *Runtime) addrHash(p uintptr) *H {
-	if r.addrH == nil {
-		r.addrH = map[uintptr]*H{}
+	if h, ok := r.addrH.get(p); ok {
+		return h
 	}
-	h := r.addrH[p]
-	if h == nil {
-		h = &H{}
-		r.addrH[p] = h
-	}
+	h := &H{}
+	r.addrH.put(p, h)
 	return h
 }
 
 // barrier is absorbed by every thread when the clock advances.
+//
+//go:norace
 func (r *Runtime) barrier() {
 	b := H{uint64(r.now), 0xb}
 	for _, t := range r.threads {
@@ -72,6 +79,7 @@ func (r *Runtime) barrier() {
 	}
 }
 
+//go:norace
 func (r *Runtime) stateKey(curRunnable bool) H {
 	k := H{uint64(r.now), uint64(r.idleDl)}
 	var sum H
